@@ -1534,6 +1534,7 @@ type logItem struct {
 	ID, Author, Date, Msg string
 }
 
+var logDateRe = regexp.MustCompile(`^(\d{4}-\d\d-\d\d \d\d:\d\d:\d\d) ([+-]\d{4})`)
 var logHeadRe = regexp.MustCompile(`(?m)^commit ([0-9a-f]{40})\nAuthor: (.*)\nDate: (.*)\n\n\t`)
 
 func parseLogOut(s string) []logItem {
@@ -1616,6 +1617,29 @@ func orC14(t *Trans) []Viol {
 		}
 		if g.Msg != ci.Message {
 			vs = append(vs, Viol{Clause: "list", Detail: fmt.Sprintf("commit %s printed with message %q, stored %q", g.ID[:7], clip(g.Msg, 60), clip(ci.Message, 60))})
+		}
+		// the date line shows the stored instant at the stored UTC offset (whatever zone `log` runs in)
+		if f := strings.Fields(ci.Author); len(f) >= 2 {
+			var secs int64
+			if _, err := fmt.Sscanf(f[len(f)-2], "%d", &secs); err == nil {
+				zone := f[len(f)-1]
+				if m := logDateRe.FindStringSubmatch(g.Date); m == nil {
+					vs = append(vs, Viol{Clause: "list", Detail: fmt.Sprintf("commit %s printed with an unreadable date %q", g.ID[:7], g.Date)})
+				} else if len(zone) == 5 {
+					var y, mo, d, hh, mm, ss int
+					fmt.Sscanf(m[1], "%d-%d-%d %d:%d:%d", &y, &mo, &d, &hh, &mm, &ss)
+					var zh, zm int
+					fmt.Sscanf(zone[1:], "%02d%02d", &zh, &zm)
+					off := zh*3600 + zm*60
+					if zone[0] == '-' {
+						off = -off
+					}
+					shown := time.Date(y, time.Month(mo), d, hh, mm, ss, 0, time.UTC).Unix() - int64(off)
+					if m[2] != zone || shown != secs {
+						vs = append(vs, Viol{Clause: "list", Detail: fmt.Sprintf("commit %s printed with date %q, stored instant %d at %s", g.ID[:7], g.Date, secs, zone)})
+					}
+				}
+			}
 		}
 	}
 	return vs
